@@ -391,23 +391,24 @@ SystemMaybe<ResourcePressure> Fs::readRespressureFromLines(
       // full avg10=0.22 avg60=0.16 avg300=1.08 total=58464525
       std::vector<std::string> toks =
           Util::split(lines[pressure_line_index], ' ');
-      if (toks[0] != type_name) {
+      // a truncated line must not be indexed past its end
+      if (toks.size() < 5 || toks[0] != type_name) {
         return SYSTEM_ERROR(EINVAL);
       }
       std::vector<std::string> avg10 = Util::split(toks[1], '=');
-      if (avg10[0] != "avg10") {
+      if (avg10.size() != 2 || avg10[0] != "avg10") {
         return SYSTEM_ERROR(EINVAL);
       }
       std::vector<std::string> avg60 = Util::split(toks[2], '=');
-      if (avg60[0] != "avg60") {
+      if (avg60.size() != 2 || avg60[0] != "avg60") {
         return SYSTEM_ERROR(EINVAL);
       }
       std::vector<std::string> avg300 = Util::split(toks[3], '=');
-      if (avg300[0] != "avg300") {
+      if (avg300.size() != 2 || avg300[0] != "avg300") {
         return SYSTEM_ERROR(EINVAL);
       }
       std::vector<std::string> total = Util::split(toks[4], '=');
-      if (total[0] != "total") {
+      if (total.size() != 2 || total[0] != "total") {
         return SYSTEM_ERROR(EINVAL);
       }
 
@@ -426,7 +427,7 @@ SystemMaybe<ResourcePressure> Fs::readRespressureFromLines(
       // full 0.00 0.03 0.05
       std::vector<std::string> toks =
           Util::split(lines[pressure_line_index + 1], ' ');
-      if (toks[0] != type_name) {
+      if (toks.size() < 4 || toks[0] != type_name) {
         return SYSTEM_ERROR(EINVAL);
       }
 
